@@ -912,10 +912,10 @@ pub fn run_c06_stale(sc: &StaleCase) -> Outcome {
 pub fn c06(ctx: &Ctx, rep: &mut Report) {
     rep.rule = "rounds (2-8) of open/close cycles separated by quiescence, every order of write/shutdown/drop/read on the two ends, flow ids scripted from {0,1,2,3} so that a freed id is proposed again at once, 0-2 bystander streams (ids >= 100) exchanging data in every round; \
                 oracle: C02/C03/C05 oracles on everything, bystanders complete, and a model of which ids each endpoint must still hold, replayed against the Connect frames on the wire: a freed id must be chosen again by its owner (no leaked local slot) and acknowledged by the peer (no leaked peer slot). \
-                Raw-peer family: after each close order a raw Connect on the same id must be acknowledged. Burst family: 2..300 streams aborted in the same instant must each be reset and reach end-of-stream at the peer. Non-trivial = an id was reused after a close, or a drop happened with data in flight in the other direction. Distinct = distinct case value."
+                Raw-peer family: after each close order a raw Connect on the same id must be acknowledged. Stale-handle family: the id of a stream that ended on the wire (peer Reset / both Finish / own Reset after an overrun / still live) is used again - by the peer or by the endpoint's own scripted generator - while the application holds the old handle; a live id must be refused, and if the new stream is established it must run its whole script unaffected by the old handle being dropped, shut down or written to. Burst family: 2..300 streams aborted in the same instant must each be reset and reach end-of-stream at the peer. Non-trivial = an id was reused after a close, or a drop happened with data in flight in the other direction. Distinct = distinct case value."
         .into();
     rep.assumptions = sim_assumptions();
-    rep.assumptions.push("ids are reused only after both applications let go of the old stream (the property's precondition); reuse while one application still holds a dead stream handle is not generated".into());
+    rep.assumptions.push("cycle family: ids are reused only after both applications let go of the old stream (the precondition of the id-release sentence); reuse while one application still holds the handle of a stream that ended on the wire is generated by the stale-handle family".into());
     let t = ctx.tier;
     ctx.prop(rep, "cycles", t.pick(25_000, 800_000), 300, || with_keepalive(c06_case()), run_c06);
     ctx.prop(rep, "raw-probe", t.pick(20_000, 400_000), 200, c06_raw_case, run_c06_raw);
